@@ -9,26 +9,17 @@ import (
 	"golang.org/x/tools/go/ssa"
 )
 
-// homeMethodEffect: a library function invoked method `name` on interface value w. If w holds
-// one of the package's own types, that method's frame may have been written: each key of the frame
-// is havocked under the guard "dynamic type is that type".
+// homeMethodEffect: a library function invoked method `name` on interface value w (any number of
+// times). If w holds one of the package's own types, that method's effects apply: its frame is
+// havocked (refined by an explicit modifies clause), and the invariants its contract declares as
+// preserved / stable still hold afterwards. All of it under the guard "dynamic type is that type".
 func (x *Exec) homeMethodEffect(st *State, w Value, name string) {
 	iv, ok := w.(VIface)
 	if !ok {
 		return
 	}
-	guards := map[string]Term{}
-	sorts := map[string]Sort{}
-	var allGuard Term = TFalse
-	type pres struct {
-		g   Term
-		pre Term
-		c   *Clause
-		fn  *ssa.Function
-		rv  Value
-	}
-	var preserved []pres
-	pre := st.clone()
+	var branches []edge
+	var known []Term
 	for _, t := range x.eng.concreteTypes {
 		sel := x.eng.prog.MethodSets.MethodSet(t).Lookup(x.eng.home, name)
 		if sel == nil {
@@ -39,7 +30,6 @@ func (x *Exec) homeMethodEffect(st *State, w Value, name string) {
 			continue
 		}
 		if p, isPtr := t.(*types.Pointer); isPtr {
-			// method sets of *T include T's methods; the interface holds exactly one of them
 			if x.eng.prog.MethodSets.MethodSet(p.Elem()).Lookup(x.eng.home, name) != nil {
 				continue
 			}
@@ -48,57 +38,49 @@ func (x *Exec) homeMethodEffect(st *State, w Value, name string) {
 		if g.IsFalse() {
 			continue
 		}
+		known = append(known, g)
+		s2 := st.clone()
+		s2.pc = x.vc.Name(And(st.pc, g), "cb")
+		pre := s2.clone()
 		fs := x.eng.frameOf(fn)
 		if fs.all {
-			allGuard = Or(allGuard, g)
+			x.havocAll(s2)
 		}
-		if ct := x.eng.contracts.Funcs[fnKey(fn, x.eng.home)]; ct != nil && len(ct.Preserves)+len(ct.Stables) > 0 && len(fn.Params) > 0 {
+		for _, k := range sortedKeys(fs.keys) {
+			x.havocKey(s2, k, fs.keys[k])
+			x.written[k] = true
+		}
+		if ct := x.eng.contracts.Funcs[fnKey(fn, x.eng.home)]; ct != nil && len(fn.Params) > 0 {
 			rv := x.unbox(nil, pre, iv, t)
+			vars := map[string]TV{fn.Params[0].Name(): {rv, fn.Params[0].Type()}}
+			cfr := &Frame{fn: fn, regs: map[ssa.Value]Value{}}
+			if ct.HasMod {
+				// entries that mention other parameters cannot be evaluated: only receiver-rooted
+				// entries are refined, anything else keeps the havoc
+				x.applyModifies(cfr, s2, pre, fn, ct, vars, fs)
+			}
 			for _, pc := range append(append([]*Clause{}, ct.Preserves...), ct.Stables...) {
-				vars := map[string]TV{fn.Params[0].Name(): {rv, fn.Params[0].Type()}}
-				env := x.newEnv(&Frame{fn: fn, regs: map[ssa.Value]Value{}}, pre, pre, vars, fn)
-				p0 := env.evalBool(pc.Expr)
-				if env.err == nil {
-					preserved = append(preserved, pres{g, p0, pc, fn, rv})
+				e0 := x.newEnv(cfr, pre, pre, vars, fn)
+				p0 := e0.evalBool(pc.Expr)
+				e1 := x.newEnv(cfr, s2, pre, vars, fn)
+				p1 := e1.evalBool(pc.Expr)
+				if e0.err == nil && e1.err == nil {
+					x.assume(s2, Implies(p0, p1))
 				}
 			}
 		}
-		for k, srt := range fs.keys {
-			if cur, has := guards[k]; has {
-				guards[k] = Or(cur, g)
-			} else {
-				guards[k] = g
-			}
-			sorts[k] = srt
-		}
+		branches = append(branches, edge{nil, TTrue, s2})
 	}
-	if !allGuard.IsFalse() {
-		s2 := st.clone()
-		x.havocAll(s2)
-		s2.pc = And(st.pc, allGuard)
-		s1 := st.clone()
-		s1.pc = And(st.pc, Not(allGuard))
-		m := x.mergeStates([]edge{{nil, TTrue, s2}, {nil, TTrue, s1}})
-		pc := st.pc
-		*st = *m
-		st.pc = pc
+	if len(branches) == 0 {
+		return
 	}
-	for _, k := range sortedKeys(guards) {
-		old := x.heapGet(st, k, sorts[k])
-		fresh := x.vc.Fresh("H|"+k, sorts[k])
-		x.heapSorts[k] = sorts[k]
-		st.heap[k] = x.vc.Name(Ite(guards[k], fresh, old), "H|"+k)
-		x.written[k] = true
-	}
-	// invariants that every call of the method preserves still hold after any number of calls
-	for _, p := range preserved {
-		vars := map[string]TV{p.fn.Params[0].Name(): {p.rv, p.fn.Params[0].Type()}}
-		env := x.newEnv(&Frame{fn: p.fn, regs: map[ssa.Value]Value{}}, st, pre, vars, p.fn)
-		p1 := env.evalBool(p.c.Expr)
-		if env.err == nil {
-			x.assume(st, Implies(And(p.g, p.pre), p1))
-		}
-	}
+	rest := st.clone()
+	rest.pc = And(st.pc, Not(Or(known...)))
+	branches = append(branches, edge{nil, TTrue, rest})
+	m := x.mergeStates(branches)
+	pc := st.pc
+	*st = *m
+	st.pc = pc
 }
 
 func (x *Exec) bufTag() int64 {
